@@ -203,7 +203,42 @@ def unit_reuse(a):
     return pc.unit_reuse(a, st_ast(), proj_c10, "C10 projection of the pickles", 70)
 
 
+def check_cross_dialect(case, stats):
+    """a matcher configured for one dialect parses a document whose header selects another dialect that shares a step keyword with another meaning"""
+    from .c15 import doc_using
+    d1, d2, k = case["default"], case["dialect"], case["kw"]
+    text = doc_using(d2, k)
+    stats.case((d1, d2, k), True, sample=case)
+    g = gh.IdGenerator()
+    r = gh.parse(text, d1, builder=gh.AstBuilder(g))
+    if r[0] != "ok":
+        raise Violation(case, "document in %s (selected by header) rejected by a matcher configured for %s: %r" % (d2, d1, r[1][:2]))
+    f = r[1]["feature"]
+    steps = [s_ for ch in f["children"] if "scenario" in ch for s_ in ch["scenario"]["steps"]]
+    want = []
+    for s_ in steps:
+        line = s_["keyword"] + s_["text"]
+        m = next(x for x, _ in step_keywords(d2) if line.startswith(x))
+        want.append(step_keyword_type(d2, m))
+    got = [s_["keywordType"] for s_ in steps]
+    if got != want:
+        raise Violation(case, "matcher default %s, document header %s: keyword types %r, the %s table gives %r\n%s" % (d1, d2, got, d2, want, text))
+    pk = gh.Compiler(g).compile(dict(r[1], uri="u"))
+    if steps and [s_["type"] for s_ in pk[0]["steps"]] != fold(want):
+        raise Violation(case, "matcher default %s, document header %s: pickle step types %r, expected %r" % (d1, d2, [s_["type"] for s_ in pk[0]["steps"]], fold(want)))
+
+
+def unit_cross(a):
+    from .c15 import shared_keyword_pairs
+    stats = Stats()
+    pairs = shared_keyword_pairs()
+    sweep(stats, [{"sub": "cross", "default": x, "dialect": y, "kw": k} for n, (d1, d2, k) in enumerate(pairs) if n % a["nshards"] == a["shard"] for x, y in ((d1, d2), (d2, d1))], check_cross_dialect)
+    return stats
+
+
 def replay(case, stats):
+    if case["sub"] == "cross":
+        return check_cross_dialect(case, stats)
     if case["sub"] == "reuse":
         from vlib.refcompile import proj_c10
         return pc.check_reuse(case, stats, proj_c10, "C10 projection of the pickles")
@@ -218,6 +253,7 @@ def run(ctx):
     ns = 16
     maxlen = 5 if q else 7
     ctx.units("type-sequences-exhaustive", unit_seq, [{"maxlen": maxlen, "shard": i, "nshards": ns} for i in range(ns)], procs=ns)
+    ctx.units("cross-dialect-shared-keywords", unit_cross, [{"shard": i, "nshards": ns} for i in range(ns)], procs=ns)
     ctx.units("dialects-through-parser", unit_dialects, [{"shard": i, "nshards": ns, "variants": [0, 1] if q else [0, 1, 2, 3, 4, 5]} for i in range(ns)], procs=ns)
     ctx.units("compiler-reuse", unit_reuse, [{"n": 450 if q else 4000, "seed": ctx.seed, "shard": i} for i in range(8 if q else 16)], procs=16)
     from . import textdocs
